@@ -150,27 +150,76 @@ def apply_schema_directives(
         Modified schema.
 
     """
-    before = {
-        id(element.node): value
-        for element, value in _literal_defaults(schema)
-    }
+    before = snapshot_literal_defaults(schema)
     schema = _SchemaDirectivesApplicationVisitor(
         schema_directives,
         schema.directives,
         None if within is None else _directive_nodes(within),
     ).on_schema(schema)
-    # A directive may have given an enum new values or implemented a scalar:
-    # the default values written in the document denote values of the types as
-    # they are now. They are evaluated again, unless a directive changed them.
-    for element, value in _literal_defaults(schema):
-        node_id = id(element.node)
-        if node_id in before and before[node_id] != value:
-            try:
-                if element.default_value == before[node_id]:
-                    element.default_value = value
-            except Exception:  # comparison of arbitrary Python values
-                pass
+    refresh_literal_defaults(schema, before)
     return schema
+
+
+def snapshot_literal_defaults(schema: Schema) -> Dict[int, Any]:
+    """
+    Value, in their current type, of the default values written in SDL (to be
+    handed to :func:`refresh_literal_defaults` once types have been replaced).
+    """
+    return {
+        id(element.node): value
+        for element, value in _literal_defaults(schema)
+    }
+
+
+def refresh_literal_defaults(
+    schema: Schema, before: Dict[int, Any], leaves_only: bool = False
+) -> None:
+    """
+    A directive or a visitor may have given an enum new values or implemented
+    a scalar: the default values written in the document denote values of the
+    types as they are now. They are evaluated again, unless they were changed
+    in the meantime.
+
+    With ``leaves_only`` a default is only replaced by a value of the same
+    shape (same keys, same list lengths): the leaves are read again, the
+    input fields a visitor added or removed do not rewrite it.
+    """
+    # Repeated until nothing moves: a default such as `r: Range = {}` is made
+    # of the defaults of the input fields it omits, which may be refreshed
+    # after it (the bound only guards against defaults that never settle).
+    for _ in range(len(before) + 1):
+        changed = False
+        for element, value in _literal_defaults(schema):
+            node_id = id(element.node)
+            if node_id in before and before[node_id] != value:
+                if leaves_only and not _same_shape(before[node_id], value):
+                    continue
+                try:
+                    if element.default_value == before[node_id]:
+                        element.default_value = value
+                        changed = True
+                except Exception:  # comparison of arbitrary Python values
+                    pass
+        if not changed:
+            break
+
+
+def _same_shape(a: Any, b: Any) -> bool:
+    if isinstance(a, dict) or isinstance(b, dict):
+        return (
+            isinstance(a, dict)
+            and isinstance(b, dict)
+            and a.keys() == b.keys()
+            and all(_same_shape(a[k], b[k]) for k in a)
+        )
+    if isinstance(a, list) or isinstance(b, list):
+        return (
+            isinstance(a, list)
+            and isinstance(b, list)
+            and len(a) == len(b)
+            and all(_same_shape(x, y) for x, y in zip(a, b))
+        )
+    return True
 
 
 def _literal_defaults(schema: Schema) -> Iterator[Tuple[Any, Any]]:
